@@ -20,6 +20,7 @@ type feCase struct {
 	Logical model.Val   `json:"logical"` // record keyed by schema key (parse) or typed value (validate)
 	FE      string      `json:"fe"`
 	Mode    string      `json:"mode"`
+	Cold    bool        `json:"cold,omitempty"` // the execution starts with empty object pools
 }
 
 // runFE renders the record for the front end, runs the specification and zog.
@@ -27,7 +28,7 @@ func runFE(c feCase, logIssues bool) (*model.SpecOut, *model.Result, reflect.Val
 	c.Root.Number()
 	env := &model.Env{}
 	schema, typ := model.Build(c.Root, env)
-	exec := model.Exec{Mode: c.Mode, LogIssues: logIssues}
+	exec := model.Exec{Mode: c.Mode, LogIssues: logIssues, Cold: c.Cold}
 	if c.Mode == "validate" {
 		cs := model.Case{Root: c.Root, Input: c.Logical, Exec: exec}
 		dest := newDest(typ, cs, false)
@@ -211,6 +212,12 @@ func propC10(c feCase) hh.Verdict {
 	if spec.PostFailed {
 		v.Classes = append(v.Classes, "issue-from-posttransform-error")
 	}
+	for _, d := range spec.Detailed {
+		if strings.Count(d.Path, ".")+strings.Count(d.Path, "[") >= 5 {
+			v.Classes = append(v.Classes, "path>=6-segments")
+			break
+		}
+	}
 	if renamed {
 		v.Classes = append(v.Classes, "tagged")
 	}
@@ -279,6 +286,36 @@ func TestC10(t *testing.T) {
 		return ""
 	})
 	hh.Sub(h, "validate", h.N(10000, 60000), func(rt *rapid.T) feCase { return genFE(rt, h, "validate", nil, base) }, propC10)
+	// deep nestings (paths of six and more segments, slices inside slices inside structs) on cold pools: the path of an
+	// issue is built from helper objects that start small and grow during the first deep execution
+	deep := base
+	deep.MaxDepth, deep.MaxFields, deep.MaxElems, deep.PLight = 6, 2, 3, 0.6
+	deep.PTestSat, deep.PAbsent, deep.PJunk = 0.55, 0.1, 0.03
+	deep.RootKinds, deep.PreferDeep = []string{model.KStruct}, true
+	for _, mode := range []string{"parse", "validate"} {
+		mode := mode
+		hh.SubEx(h, "deep-cold-"+mode, h.N(1200, 8000), func(rt *rapid.T) feCase {
+			c := genFE(rt, h, mode, []string{model.FEMap, model.FEMap, model.FEJSON}, deep)
+			c.Cold = true
+			return c
+		}, func(c feCase) hh.Verdict {
+			v := propC10(c)
+			if v.Skip == "" && v.Err == "" {
+				v.Nontrivial = false
+				for _, cl := range v.Classes {
+					if cl == "path>=6-segments" {
+						v.Nontrivial = true
+					}
+				}
+			}
+			return v
+		}, func(c feCase) string {
+			if h.Open("source-tag-on-empty-object") && emptyObjectWithSourceTags(c) {
+				return "source-tag-on-empty-object"
+			}
+			return ""
+		})
+	}
 	// issues that come from a PostTransform's returned error are keyed by their own node's path too, whatever options
 	// (IssuePath ...) the tests of other nodes carry: mostly valid records, so that the failing transform is reached
 	pe := base
